@@ -16,7 +16,7 @@ ASSUMPTIONS = ["scipy.linalg.expm closed form of the linear rate equations is th
                "reference log-priors from vlib/ref.py (C16)"]
 RUN_OPTS = {"batch_size": 5, "timeout_per_case": 120.0}
 MINIMA = {"*": {"cost_evaluations": 300, "contract_evaluations": 300, "ll_data_entries": 1000, "permutation_pairs": 100, "history_pairs": 100,
-                "out_of_support_thetas": 20, "emcee_evaluations": 40, "differing_key_cases": 3}}
+                "out_of_support_thetas": 20, "emcee_evaluations": 40, "differing_key_cases": 3, "reconfigured_evaluations": 40}}
 
 ALLP = ["kp", "k1", "k2", "d", "da"]
 
@@ -150,7 +150,7 @@ def make_setup(case, M, order=None, meas=None, colorder=None):
     return InferenceSetup(**kw), frames
 
 
-def expected_cost(case, theta, order=None):
+def expected_cost(case, theta, order=None, meas=None, norm=None):
     import numpy as np
     lp = 0.0
     for p, v in zip(case["est"], theta):
@@ -173,11 +173,11 @@ def expected_cost(case, theta, order=None):
         psim.update(case["conds"][n])
         psim.update(dict(zip(case["est"], theta)))
         sim = solution(psim, case["x0s"][n], tp)
-        for m in case["meas"]:
+        for m in (case["meas"] if meas is None else meas):
             j = "ABC".index(m)
             nz = np.array([case["noise"][n][t][case["meas"].index(m)] for t in range(case["T"])])
-            tot += float(np.sum(np.abs(data[:, j] + nz - sim[:, j]) ** case["norm"]))
-    return lp - tot ** (1.0 / case["norm"])
+            tot += float(np.sum(np.abs(data[:, j] + nz - sim[:, j]) ** (case["norm"] if norm is None else norm)))
+    return lp - tot ** (1.0 / (case["norm"] if norm is None else norm))
 
 
 def run_case(case):
@@ -286,6 +286,45 @@ def run_case(case):
             if not (v0 == v3 or (math.isfinite(v0) and math.isfinite(v3) and abs(v0 - v3) <= 1e-9 * (1 + abs(v0)))):
                 bad("depends-on-%s%s" % (name, ":condition-keys-differ" if case["differing_keys"] and name == "trajectory-order" else ""),
                     "cost_function(%r) = %r, but %r with the %s permuted (%r)" % (th, v0, v3, name, kw))
+    # re-configuration of an object that has already been prepared and used: measured species re-listed / narrowed and the
+    # norm order changed through the setters, then prepare_inference + setup_cost_function as the documentation prescribes
+    good = [th for th in case["thetas"] if (expected_cost(case, th) or -math.inf) > -math.inf]
+    if good and not case["single_frame"]:
+        th = good[0]
+        M6 = make_model(case)
+        try:
+            inf6, _ = make_setup(case, M6)
+            inf6.cost_function(np.array(th))
+            cur_meas, cur_norm = list(case["meas"]), case["norm"]
+            steps = []
+            if len(case["meas"]) > 1:
+                pm = list(case["meas"])
+                while pm == list(case["meas"]):
+                    rr.shuffle(pm)
+                steps += [("measurements", pm), ("measurements", pm[:-1])]
+            steps += [("norm_order", 1 + case["norm"] % 3), ("measurements", list(case["meas"]))]
+            for what, val in steps:
+                if what == "measurements":
+                    inf6.set_measurements(list(val))
+                    cur_meas = list(val)
+                else:
+                    inf6.set_norm_order(val)
+                    cur_norm = val
+                # an evaluation leaves theta and the last trajectory's condition in the model's parameter array, and
+                # prepare_inference takes the model's values as they are as the new defaults: the model is put back to its own
+                # values first, so that "the model's parameters" of the statement are unambiguous
+                M6.set_params({k: float(v_) for k, v_ in base_params.items()})
+                inf6.prepare_inference()
+                inf6.setup_cost_function()
+                v = float(inf6.cost_function(np.array(th)))
+                exp = expected_cost(case, th, meas=cur_meas, norm=cur_norm)
+                C["reconfigured_evaluations"] += 1
+                if exp is not None and not (math.isfinite(v) and abs(v - exp) <= 1e-4 * (1 + abs(exp))):
+                    bad("stale-after-reconfiguration:" + what, "after %s = %r on a prepared object (then prepare_inference, setup_cost_function) cost_function(%r) = %r, stated posterior %r" % (
+                        what, val, th, v, exp))
+                    break
+        except Exception as e:
+            bad("reconfiguration-raises", "re-configuring a prepared InferenceSetup raised %r" % (e,))
     # stochastic cost on a model whose stochastic simulation is deterministic (nothing can fire)
     if case["stochastic"]:
         import pandas as pd
